@@ -31,9 +31,11 @@ def _ks2():
 def scope(tier, seed):
     if tier == 'quick':
         return {'A': 'all 148 labelled K(<=2) x all 8964 formulas of size<=2',
+                'N': 'all 148 labelled K(<=2) x %d formulas with a 3-ary and/or' % len(spaces.nary_ctl()),
                 'B': '3836 iso-representatives of K(3) x 144 formulas size<=1',
                 'C': 'size-3 block %d of %d x 82 representatives of K(<=2)' % (seed % NB3, NB3)}
     return {'A': 'all 148 labelled K(<=2) x all 8964 formulas of size<=2',
+            'N': 'all 148 labelled K(<=2) x %d formulas with a 3-ary and/or' % len(spaces.nary_ctl()),
             'B': 'all 21952 labelled K(3) x 144 formulas size<=1',
             'C': 'size-3 blocks {%d..%d} mod %d x 82 representatives of K(<=2)'
                  % (seed % NB3, (seed + 7) % NB3, NB3),
@@ -45,6 +47,8 @@ def plan(tier, seed):
     sh = []
     for i in range(148):
         sh.append(['A', i])
+    for lo, hi in chunks(148, 4):
+        sh.append(['N', lo, hi])
     if tier == 'quick':
         for lo, hi in chunks(3836, 48):
             sh.append(['Brep', lo, hi])
@@ -108,6 +112,15 @@ def run_shard(shard, tier, seed, acc):
             acc.violation('structure-modified', kcase(k), None, None)
         acc.sample({'k': k.to_json(), 'formulas': 'all of size<=2', 'example':
                     spaces.fstr(spaces.ctl_by_size(2)[1234])})
+        return
+    if kind == 'N':
+        forms = spaces.nary_ctl()
+        for k in _ks2()[shard[1]:shard[2]]:
+            Kl = lib.to_kripke(k)
+            for j, f in enumerate(forms):
+                check_one(k, Kl, f, acc, audit=(j % 16 == 0))
+        acc.sample({'k': _ks2()[shard[1]].to_json(), 'formulas': '3-ary and/or family',
+                    'example': spaces.fstr(forms[300])})
         return
     if kind in ('Brep', 'Ball'):
         if kind == 'Brep':
